@@ -12,12 +12,14 @@ import (
 )
 
 type (
-	File      = simrt.File
-	FileInfo  = iofs.FileInfo
-	FileMode  = iofs.FileMode
-	PathError = iofs.PathError
-	DirEntry  = iofs.DirEntry
-	Signal    = real.Signal
+	File         = simrt.File
+	FileInfo     = iofs.FileInfo
+	FileMode     = iofs.FileMode
+	PathError    = iofs.PathError
+	LinkError    = real.LinkError
+	SyscallError = real.SyscallError
+	DirEntry     = iofs.DirEntry
+	Signal       = real.Signal
 )
 
 const (
